@@ -186,13 +186,17 @@ def toDense (s : St) : St × Val :=
 /-- `_symeig`: `torch.linalg.eigh(self.to_dense())` — touches the memoised `to_dense`. -/
 def symeigRun (s : St) : St := ((toDense P m s).1).log ["symeig"]
 
+def diagzBody (meth : String) (s : St) : St × Val :=
+  if meth == "lanczos" then ({ cache := s.cache, run := s.run + 1, logs := s.logs ++ ["lanczos", "symeig"] }, Val.diagz (s.run + 1) m)
+  else (symeigRun P m s, Val.diagz 0 m)
+
+def diagzCompute (c : Call) (s : St) : St × Val :=
+  diagzBody P m (match c.method with
+    | some x => x
+    | none => if n ≤ σ.mcs then "symeig" else "lanczos") s
+
 def diagonalization (c : Call) (s : St) : St × Val :=
-  cachedCall (diagzKey c) (fun s =>
-    let meth := match c.method with
-      | some x => x
-      | none => if n ≤ σ.mcs then "symeig" else "lanczos"
-    if meth == "lanczos" then ({ s.log ["lanczos", "symeig"] with run := s.run + 1 }, Val.diagz (s.run + 1) m)
-    else (symeigRun P m s, Val.diagz 0 m)) s
+  cachedCall (diagzKey c) (diagzCompute P σ n m c) s
 
 def svd (s : St) : St × Val :=
   cachedCall svdKey (fun s => (symeigRun P m s, Val.svd m)) s
@@ -203,52 +207,60 @@ def diagzProv : Val → Nat
 
 /-- `_root_decomposition` (Lanczos). -/
 def lanczosRoot (s : St) : St × Val :=
-  if P.lanczosBase then ({ s.log ["lanczos", "symeig"] with run := s.run + 1 }, Val.root (.lanczos s.run) false false m)
+  if P.lanczosBase then ({ cache := s.cache, run := s.run + 1, logs := s.logs ++ ["lanczos", "symeig"] }, Val.root (.lanczos s.run) false false m)
   else (s, Val.root .chol true true m)
 
+def rootBody (meth : String) (s : St) : St × Val :=
+  if meth == "cholesky" then
+    let r := cholesky P m false s
+    (r.1, Val.root .chol true true m)
+  else if meth == "pivoted_cholesky" then (((toDense P m s).1).log ["pivchol"], Val.root .pivchol false false m)
+  else if meth == "symeig" then (symeigRun P m s, Val.root .symeig false false m)
+  else if meth == "diagonalization" then
+    let r := diagonalization P σ n m .noargs s
+    (r.1, Val.root (.diagz (diagzProv r.2)) false false m)
+  else if meth == "svd" then
+    let r := svd P m s
+    (r.1, Val.root .svd false false m)
+  else lanczosRoot P m s
+
+def rootCompute (c : Call) (s : St) : St × Val :=
+  rootBody P σ n m (match c.method with
+    | some x => x
+    | none => chooseRootMethod σ n s.cache) s
+
 def rootDecomp (c : Call) (s : St) : St × Val :=
-  cachedCall (rootKey c) (fun s =>
-    let meth := match c.method with
-      | some x => x
-      | none => chooseRootMethod σ n s.cache
-    if meth == "cholesky" then
-      let r := cholesky P m false s
-      (r.1, Val.root .chol true true m)
-    else if meth == "pivoted_cholesky" then (((toDense P m s).1).log ["pivchol"], Val.root .pivchol false false m)
-    else if meth == "symeig" then (symeigRun P m s, Val.root .symeig false false m)
-    else if meth == "diagonalization" then
-      let r := diagonalization P σ n m .noargs s
-      (r.1, Val.root (.diagz (diagzProv r.2)) false false m)
-    else if meth == "svd" then
-      let r := svd P m s
-      (r.1, Val.root .svd false false m)
-    else lanczosRoot P m s) s
+  cachedCall (rootKey c) (rootCompute P σ n m c) s
+
+def rootInvBody (meth : String) (s : St) : St × Val :=
+  if meth == "cholesky" then
+    let r := cholesky P m false s
+    (r.1, Val.rootInv .chol m)
+  else if meth == "symeig" then (symeigRun P m s, Val.rootInv .symeig m)
+  else if meth == "diagonalization" then
+    let r := diagonalization P σ n m .noargs s
+    (r.1, Val.rootInv (.diagz (diagzProv r.2)) m)
+  else if meth == "svd" then
+    let r := svd P m s
+    (r.1, Val.rootInv .svd m)
+  else if meth == "pinverse" then
+    let r := rootDecomp P σ n m .noargs s
+    match r.2 with
+    | .root p _ _ mm => (r.1, Val.rootInv p mm)
+    | _ => (r.1, Val.rootInv .transplant 0)
+  else if P.lanczosBase then
+    -- `_root_inv_decomposition`: one Lanczos run yields root and inverse root; the root is written into the cache
+    ({ cache := s.cache.put (rootKey .noargs) (Val.root (.lanczos s.run) false false m), run := s.run + 1,
+       logs := s.logs ++ ["lanczos", "symeig"] }, Val.rootInv (.lanczos s.run) m)
+  else (s, Val.rootInv .chol m)
+
+def rootInvCompute (c : Call) (s : St) : St × Val :=
+  rootInvBody P σ n m (match c.method 2 with
+    | some x => x
+    | none => chooseRootMethod σ n s.cache) s
 
 def rootInvDecomp (c : Call) (s : St) : St × Val :=
-  cachedCall (rootInvKey c) (fun s =>
-    let meth := match c.method 2 with
-      | some x => x
-      | none => chooseRootMethod σ n s.cache
-    if meth == "cholesky" then
-      let r := cholesky P m false s
-      (r.1, Val.rootInv .chol m)
-    else if meth == "symeig" then (symeigRun P m s, Val.rootInv .symeig m)
-    else if meth == "diagonalization" then
-      let r := diagonalization P σ n m .noargs s
-      (r.1, Val.rootInv (.diagz (diagzProv r.2)) m)
-    else if meth == "svd" then
-      let r := svd P m s
-      (r.1, Val.rootInv .svd m)
-    else if meth == "pinverse" then
-      let r := rootDecomp P σ n m .noargs s
-      match r.2 with
-      | .root p _ _ mm => (r.1, Val.rootInv p mm)
-      | _ => (r.1, Val.rootInv .transplant 0)
-    else if P.lanczosBase then
-      -- `_root_inv_decomposition`: one Lanczos run yields root and inverse root; the root is written into the cache
-      let s1 := { s.log ["lanczos", "symeig"] with run := s.run + 1 }
-      ({ s1 with cache := s1.cache.put (rootKey .noargs) (Val.root (.lanczos s.run) false false m) }, Val.rootInv (.lanczos s.run) m)
-    else (s, Val.rootInv .chol m)) s
+  cachedCall (rootInvKey c) (rootInvCompute P σ n m c) s
 
 /-- `eigh` / `eigvalsh`: pop `symeig||eigenvectors=True` if present, returning `(evals, None)`. -/
 def eigh (s : St) : St × Val :=
@@ -314,6 +326,9 @@ def rootTri : Val → Bool
 def valMat : Val → Nat
   | .chol _ a | .root _ _ _ a | .rootInv _ a | .diagz _ a | .svd a | .dense a | .num _ a | .evals _ a => a
 
+/-- Derivations other than the two transplants build the result from the constructor arguments only: empty cache. -/
+def deriveFresh : Cache := []
+
 /-- `add_low_rank`: returns the parent's new state and the NEW object's initial cache (matrix id `m'`).  As in the
 code, the updated root is wrapped as triangular whenever the parent's root is — although `L U S̃` is not triangular. -/
 def addLowRank (m' : Nat) (s : St) : St × Cache :=
@@ -338,7 +353,7 @@ end queries
 /-- What a cache entry under key `k` must be for an object whose matrix id is `m`. -/
 def validFor (m : Nat) (k : Key) (v : Val) : Prop :=
   match v with
-  | .chol u a => a = m ∧ k.name = "cholesky" ∧ (k = .full "cholesky" [] [("upper", .bool u)] ∨ k = .bare "cholesky")
+  | .chol u a => a = m ∧ ((k = .full "cholesky" [] [("upper", .bool u)]) ∨ (k = .bare "cholesky" ∧ u = false))
   | .root _ tri triOk a => a = m ∧ k.name = "root_decomposition" ∧ (tri = true → triOk = true)
   | .rootInv _ a => a = m ∧ k.name = "root_inv_decomposition"
   | .diagz _ a => a = m ∧ k.name = "diagonalization"
@@ -368,5 +383,8 @@ def answerOk (m : Nat) (q : Query) (v : Val) : Prop :=
   | .sample, .num ok a => a = m ∧ ok = true
   | .pure, .num ok a => a = m ∧ ok = true
   | _, _ => False
+
+instance (m : Nat) (q : Query) (v : Val) : Decidable (answerOk m q v) := by
+  unfold answerOk; split <;> exact inferInstance
 
 end LinOp.C12
